@@ -1,6 +1,7 @@
 package rules
 
 import (
+	"go/constant"
 	"fmt"
 	"go/types"
 	"sort"
@@ -384,15 +385,36 @@ func (c *Ctx) accessHelperOK(rule string, f *ssa.Function, succ int64) {
 // batchPreCheck: the batch form of "rules only after a successful pre-check" (DESIGN §5 C06 O4).
 func (c *Ctx) batchPreCheck(rule string, s *Signer, E *ssa.Function, run ssa.CallInstruction, succ int64) {
 	PC := s.PreCheck
-	// the closure that runs the pre-check
+	// the phase function P holding the pre-check workers and the verdict scan: the endpoint itself, or a package
+	// helper the endpoint calls that returns (rulesData, accounts, allPassed)
+	P := E
+	var hcall *ssa.Call
 	var W *ssa.Function
 	var D ssa.CallInstruction
-	for _, f := range WithClosures(E) {
-		for _, ci := range Calls(f, func(ci ssa.CallInstruction) bool { return ci.Common().StaticCallee() == PC }) {
-			W, D = f, ci
+	find := func(root *ssa.Function) {
+		for _, f := range WithClosures(root) {
+			for _, ci := range Calls(f, func(ci ssa.CallInstruction) bool { return ci.Common().StaticCallee() == PC }) {
+				W, D = f, ci
+			}
 		}
 	}
-	if W == nil || W == E {
+	find(E)
+	if W == nil {
+		for _, ci := range Calls(E, func(ci ssa.CallInstruction) bool {
+			h := ci.Common().StaticCallee()
+			return h != nil && prog.InModule(h) && h.Blocks != nil && prog.PkgPathOf(h) == prog.PkgPathOf(E) && !ci.Common().IsInvoke()
+		}) {
+			call, ok := ci.(*ssa.Call)
+			if !ok || W != nil {
+				continue
+			}
+			find(call.Call.StaticCallee())
+			if W != nil {
+				P, hcall = call.Call.StaticCallee(), call
+			}
+		}
+	}
+	if W == nil || W == P {
 		c.R.Unknown(rule, Fn(E), c.P.FuncPos(E), "the batch endpoint does not run the pre-check inside a worker closure")
 		return
 	}
@@ -402,29 +424,86 @@ func (c *Ctx) batchPreCheck(rule string, s *Signer, E *ssa.Function, run ssa.Cal
 		return
 	}
 	dv := coreResultOf(D)
-	rulesDataRoot := sliceRootExact(run.Common().Args[len(run.Common().Args)-1])
-	// accounts slice: []Account MakeSlice in E
-	var accountsRoot, resultsRoot ssa.Value
-	for _, b := range E.Blocks {
+	var rulesDataRoot, accountsRoot, resultsRoot ssa.Value
+	var gated []ssa.Instruction // instructions of P that must lie behind the completed verdict scan
+	if P == E {
+		rulesDataRoot = sliceRootExact(run.Common().Args[len(run.Common().Args)-1])
+		gated = []ssa.Instruction{run.(ssa.Instruction)}
+	}
+	for _, b := range P.Blocks {
 		for _, ins := range b.Instrs {
 			if mk, ok := ins.(*ssa.MakeSlice); ok {
 				if sl, ok := mk.Type().(*types.Slice); ok {
 					if namedIs(sl.Elem(), pkgWTypes, "Account") {
 						accountsRoot = mk
 					}
-					if namedIs(sl.Elem(), pkgCore, "Result") && lenIsData(mk) && resultsRoot == nil {
+					if P == E && namedIs(sl.Elem(), pkgCore, "Result") && lenIsData(mk) && resultsRoot == nil {
 						resultsRoot = mk
 					}
 				}
 			}
 		}
 	}
+	var eResults ssa.Value
 	for _, ret := range an.Returns(E) {
 		if r, ok := sliceRootExact(an.Result(ret, 0)).(*ssa.MakeSlice); ok && lenIsData(r) {
-			resultsRoot = r
+			eResults = r
 		}
 	}
-	if accountsRoot == nil || resultsRoot == nil {
+	if P == E && eResults != nil {
+		resultsRoot = eResults
+	}
+	if P != E {
+		// in E: RunRules takes the helper's rules data and runs only below [allPassed]; the helper is given E's verdict list
+		ex, ok := sliceRootExact(run.Common().Args[len(run.Common().Args)-1]).(*ssa.Extract)
+		if !ok || ex.Tuple != ssa.Value(hcall) {
+			c.R.Unknown(rule, Fn(E), c.Pos(run), "the rules data passed to RunRules is not the result of the helper that runs the pre-checks")
+			return
+		}
+		res := P.Signature.Results()
+		boolIdx := -1
+		for k := 0; k < res.Len(); k++ {
+			if bt, ok := res.At(k).Type().Underlying().(*types.Basic); ok && bt.Kind() == types.Bool {
+				boolIdx = k
+			}
+		}
+		if boolIdx < 0 {
+			c.R.Unknown(rule, Fn(P), c.P.FuncPos(P), "the helper that runs the pre-checks does not report whether all passed")
+			return
+		}
+		var flag ssa.Value
+		for _, r := range *hcall.Referrers() {
+			if e2, ok := r.(*ssa.Extract); ok && e2.Index == boolIdx {
+				flag = e2
+			}
+		}
+		target := run.(ssa.Instruction)
+		if x, path := an.Cut(an.CutQuery{From: an.Entry(E), Target: func(i ssa.Instruction) bool { return i == target },
+			AcceptEdge: func(b *ssa.BasicBlock, i int, a *an.Atom) bool { return a != nil && flag != nil && a.Op == "true" && a.LV == flag }}); x != nil {
+			c.R.Fail(rule, Fn(E)+":gate", c.Pos(run), "RunRules is reachable although the pre-check helper did not report that all pre-checks passed", "RunRules only below [allPassed]", an.PathString(c.Pos, path))
+			return
+		}
+		for k, q := range P.Params {
+			if sl, ok := q.Type().(*types.Slice); ok && namedIs(sl.Elem(), pkgCore, "Result") && k < len(hcall.Call.Args) {
+				if eResults != nil && sliceRootExact(hcall.Call.Args[k]) == eResults {
+					resultsRoot = q
+				}
+			}
+		}
+		for _, ret := range an.Returns(P) {
+			r, ok := sliceRootExact(an.Result(ret, ex.Index)).(*ssa.MakeSlice)
+			if !ok || (rulesDataRoot != nil && rulesDataRoot != ssa.Value(r)) {
+				c.R.Unknown(rule, Fn(P), c.Pos(ret), "the rules data returned by the pre-check helper is not one freshly made list")
+				return
+			}
+			rulesDataRoot = r
+			if cst, ok := an.Result(ret, boolIdx).(*ssa.Const); ok && cst.Value != nil && !constant.BoolVal(cst.Value) {
+				continue
+			}
+			gated = append(gated, ret)
+		}
+	}
+	if accountsRoot == nil || resultsRoot == nil || rulesDataRoot == nil {
 		c.R.Unknown(rule, Fn(E), c.P.FuncPos(E), "cannot identify the accounts / results slices")
 		return
 	}
@@ -484,7 +563,7 @@ func (c *Ctx) batchPreCheck(rule string, s *Signer, E *ssa.Function, run ssa.Cal
 	// continue only when results[i] is UNKNOWN or SUCCEEDED
 	unk, _ := c.EnumConst(rule, pkgCore, "ResultUnknown")
 	var gate *Loop
-	for _, lp := range FindLoops(E) {
+	for _, lp := range FindLoops(P) {
 		if !lp.FullRange || lp.BoundLen != resultsRoot {
 			continue
 		}
@@ -509,18 +588,25 @@ func (c *Ctx) batchPreCheck(rule string, s *Signer, E *ssa.Function, run ssa.Cal
 	}
 	if gate == nil {
 		bad = true
-		c.R.Fail(rule, Fn(E)+":gate", c.Pos(run), "no scan of the pre-check verdicts stops the request before rules are evaluated", "for i := range results { if results[i] is neither UNKNOWN nor SUCCEEDED { return } } before RunRules", nil)
+		c.R.Fail(rule, Fn(P)+":gate", c.Pos(run), "no scan of the pre-check verdicts stops the request before rules are evaluated", "for i := range results { if results[i] is neither UNKNOWN nor SUCCEEDED { return } } before RunRules", nil)
 	} else {
 		hdr, exitB := gate.Header, gate.Exit
-		target := run.(ssa.Instruction)
-		if x, path := an.Cut(an.CutQuery{From: an.Entry(E), Target: func(i ssa.Instruction) bool { return i == target },
+		isGated := func(i ssa.Instruction) bool {
+			for _, g := range gated {
+				if g == i {
+					return true
+				}
+			}
+			return false
+		}
+		if x, path := an.Cut(an.CutQuery{From: an.Entry(P), Target: isGated,
 			AcceptEdge: func(b *ssa.BasicBlock, i int, a *an.Atom) bool { return b == hdr && b.Succs[i] == exitB }}); x != nil {
 			bad = true
-			c.R.Fail(rule, Fn(E)+":gate", c.Pos(run), "RunRules is reachable without the scan of pre-check verdicts having completed", "RunRules only after the scan", an.PathString(c.Pos, path))
+			c.R.Fail(rule, Fn(P)+":gate", c.Pos(x), "RunRules is reachable without the scan of pre-check verdicts having completed", "RunRules only after the scan", an.PathString(c.Pos, path))
 		}
 		// the scan must come after the scatter that runs the pre-check
 		var scatter ssa.CallInstruction
-		for _, ci := range Calls(E, func(ci ssa.CallInstruction) bool {
+		for _, ci := range Calls(P, func(ci ssa.CallInstruction) bool {
 			for _, a := range ci.Common().Args {
 				if mc, ok := a.(*ssa.MakeClosure); ok && mc.Fn == W {
 					return true
